@@ -862,6 +862,12 @@ func (a *align) TranslateByReference(phase int, geneticcode int, refseq string) 
 	var code map[string]uint8       // Genetic code
 	var newseqbuffer []bytes.Buffer // The buffers where the temp translated sequences are written
 
+	// The phase is the index of the first nucleotide of the first codon
+	// (translating in the 3 phases at once is not possible with a reference sequence)
+	if phase < 0 {
+		err = fmt.Errorf("cannot translate using a reference sequence with a negative phase (%d)", phase)
+		return
+	}
 	// We take the reference sequence ID from the alignment
 	if refseq == "" {
 		err = fmt.Errorf("given reference sequence is empty")
